@@ -333,7 +333,7 @@ CHECKS["C11"] = {
                   "leniently by design (logged) and are not judged. The 'iff' direction is only guarded by the control.",
     "design_ref": "DESIGN.md §6 C11",
     "rule": "trigger x spelling product x all header permutations x {whole, every cut in the header block, 1-byte}; distinct = distinct transaction dumps",
-    "bounds": {"quick": "name casing x symmetric OWS {none, SP} x all permutations x all header-block cuts (1.3e5 executions)", "thorough": "+ token casing x all 16 OWS pairs"},
+    "bounds": {"quick": "full spelling product (name casing x token casing x 16 OWS pairs) x all permutations x all header-block cuts (3.3e6 executions); ASan pass on the reduced product, whole + 1-byte", "thorough": "same product; ASan pass with all cuts"},
     "assumptions": ["IDS personality", "base request POST /p with Host h.example"],
     "jobs": lambda tier: [J("enum_c11", "plain"), J("enum_c11", "asan", ["--full", "0", "--cuts", "0"] if tier == "quick" else ["--full", "0"])],
 }
